@@ -1583,10 +1583,21 @@ func (cr *clRun) punchedThenRebuilt(addr string, s int64) *ioOp {
 	b0, b1 := (s/8)*8*sect, (s/8+1)*8*sect
 	cur := int(cr.m.val[s]>>32) - 1 // the write whose value is expected there (-1: never written)
 	for _, o := range cr.ios {
-		if o.data == nil || o.n == 0 || !o.applied[addr] || o.idx <= cur {
+		if o.data == nil || o.n == 0 || o.idx <= cur {
 			continue
 		}
-		if o.off < b1 && o.off+o.n > b0 && cr.epoch[addr] > o.epochs[addr] {
+		// addr applied the write - or, for a write that was never acknowledged (failed, or still in flight
+		// when addr's process went away, so that it was never judged), was at least SENT it: the replica may
+		// have applied and punched before it died, and its head - the only evidence - is discarded by the rebuild
+		got := o.applied[addr]
+		if !got && !o.acked {
+			for _, q := range o.frames {
+				if q.toServer && q.f.Type == tWrite && cr.addrOf(q.target) == addr {
+					got = true
+				}
+			}
+		}
+		if got && o.off < b1 && o.off+o.n > b0 && cr.epoch[addr] > o.epochs[addr] {
 			return o
 		}
 	}
